@@ -1,6 +1,62 @@
-/-! `pmodel basic`: line-protocol driver (stub — replaced by the owner of this model). -/
-namespace Driver.Basic
+import PhreeqcVerif.Model.BasicExec
+import PhreeqcVerif.Model.Util
+/-! `pmodel basic`: reference evaluation of BASIC programs (C17).
 
-def run : IO Unit := IO.eprintln "pmodel basic: not implemented"
+stdin : one case per line  `<id> <hp 0|1> <fuel> <hex of program bytes>`
+stdout: `M <id> <status> <error kind> ub=<0|1> warn=<n> steps | <punch items> | T<hex print text> | <save>`
+        status = ok | err | fuel ; punch items `D<16 hex>` / `S<hex>` ; save = `D<16 hex>` or `none`.
+Strings are byte strings: byte b ↔ `Char.ofNat b`. -/
+namespace Driver.Basic
+open PhreeqcVerif PhreeqcVerif.Basic PhreeqcVerif.Util
+
+def bytesToStr (b : ByteArray) : String := String.ofList (b.toList.map fun x => Char.ofNat x.toNat)
+
+def strToHex (s : String) : String :=
+  if s.isEmpty then "-" else
+  String.ofList (s.toList.flatMap fun c => let n := c.toNat % 256; [hexDigit (n / 16), hexDigit (n % 16)])
+
+def errName : Err → String
+  | .syntax _ => "syntax" | .typeMismatch => "type" | .badSubscript => "subscript" | .undefLine => "undefline"
+  | .forWoNext => "for-wo-next" | .nextWoFor => "next-wo-for" | .whileWoWend => "while-wo-wend"
+  | .wendWoWhile => "wend-wo-while" | .returnWoGosub => "return-wo-gosub" | .outOfData => "out-of-data"
+  | .extra => "extra" | .arrayAlready => "array-already" | .illegal => "illegal" | .stop => "stop"
+  | .lex .missingQuote => "lex-quote" | .lex .missingRp => "lex-rp" | .lex .missingLp => "lex-lp"
+  | .lex .hexNumber => "unsupported:hex" | .notSaved => "not-saved" | .unsupported w => "unsupported:" ++ w
+  | .resource => "resource" | .fuel => "valdepth"
+
+def showVal : Val Float → String
+  | .num x => "D" ++ hexOfFloat x
+  | .str s => "S" ++ strToHex s
+
+def render (id : String) (status kind : String) (s : St Float) : String :=
+  let punch := " ".intercalate (s.punch.toList.map showVal)
+  -- print_user_print adds a newline after the run when the last PRINT did not suppress it
+  let text := String.join s.prints.toList ++ (if s.outNewline then "\n" else "")
+  let save := match s.save with
+    | some x => "D" ++ hexOfFloat x
+    | none => "none"
+  s!"M {id} {status} {kind} ub={if s.ub then 1 else 0} warn={s.warnings} | {punch} | T{strToHex text} | {save}"
+
+def runCase (w : List String) : String :=
+  match w with
+  | [id, hp, fuel, prog] =>
+    match unhexBytes (if prog == "-" then "" else prog) with
+    | none => s!"M {id} badinput"
+    | some b =>
+      let text := bytesToStr b
+      match compileAndRun (α := Float) (hp == "1") fuel.toNat! text with
+      | .done s => render id "ok" "-" s
+      | .err e s => render id "err" (errName e) s
+      | .fuel s => render id "fuel" "-" s
+  | _ => "M ? badline"
+
+def run : IO Unit := do
+  let stdin ← IO.getStdin
+  let stdout ← IO.getStdout
+  let lines ← readLines stdin
+  for l in lines do
+    let w := words l
+    if w.isEmpty then continue
+    stdout.putStrLn (runCase w)
 
 end Driver.Basic
